@@ -1,0 +1,13 @@
+//go:build verif
+
+// Machine-checked contracts for package tsclientgen (read by /verif/govc as text).
+
+package tsclientgen
+
+//@ func (g *Generator) buildRPCMethodConfig(service *protogen.Service, method *protogen.Method) (r *rpcMethodConfig)
+//@   ensures r != nil
+//@   ensures verb: r.httpMethod == spec.verbOf(method)
+//@   ensures path: r.fullPath == spec.clientPath(service, method)
+//@   ensures vars: r.pathParams == spec.pathVars(method)
+//@   ensures query: r.queryParams == annotations.GetQueryParams(method.Input)
+//@   ensures body: r.hasBody <==> spec.isBodyVerb(spec.verbOf(method))
